@@ -19,6 +19,19 @@ CHECKS = {
         design_ref="DESIGN.md section 5, C13",
         note=NOTE_COMMON + "Defects D7, D24, D25 found by this check were repaired in /repo (fix: commits, listed under fixed in known_findings.json); the theorems are stated without guards and carry regression witnesses.",
     ),
+    "C08": dict(
+        technique="Lean 4 proof: decision theorems over a hand-written model of Cache.requires_subquery / check_subquery, tied to the code by "
+                  "program-level correspondence of the whole verb front end (cache state and SubqueryError decision after every verb)",
+        text="Pdt/Props/C08.lean proves, for all cache states, verbs and expressions: Polars-backed tables never need a subquery (polars_never); the "
+             "state after a SubqueryMarker is a fresh SELECT (marker_state) in which no re-bound verb needs a subquery (marker_state_accepts); hence "
+             "alias() directly before any single-input verb makes check_subquery accept it (alias_enables). The model (Typing/Cache/Verbs.lean) is run "
+             "against the real verbs on generated programs and compared on outcome, exception class and every Cache field. The oracle evaluates the "
+             "clauses on the real code: Polars never raises, alias insertion enables, accepted pipelines equal the Polars result. Partial: adequacy of the "
+             "catalogue (accepted => correct) is false on the current tree (known findings D1, D2, D4, D10, D11, D38, D40) and is C01's refinement theorem; "
+             "the 'simple grammar never needs a subquery' clause is checked on the real code only.",
+        design_ref="DESIGN.md section 5, C08",
+        note=NOTE_COMMON + "Modelled, not verified: SQLite execution (oracle only). Known findings are matched by trigger predicates (harness/triggers.py).",
+    ),
 }
 
 NOT_YET = "check not built yet in this revision of /verif (model and theorems planned in DESIGN.md section 5)"
